@@ -125,6 +125,7 @@ fn run(ctx: &mut Ctx) {
             }
         }
     }
+    verify_sweep(ctx);
     // ---------------- checksum law
     let full = !(ctx.quick() && ctx.dev_profile());
     ctx.bound("checksum_law", if full { "magic + arch + length + calc_checksum == 0 (mod 2^32): all 2^32 lengths x {I386, MIPS32} x magic {MAGIC,0,1,0x80000000,0xFFFFFFFF}" } else { "the same law on the lattice h<<16|l (quick, dev profile); the release configuration sweeps all 2^32 lengths" });
@@ -138,6 +139,50 @@ fn run(ctx: &mut Ctx) {
                     return Err(format!("calc_checksum({:#x}, {:?}, {:#x}) = {:#x}: the four words do not sum to 0 mod 2^32", magic, arch, len, c));
                 }
                 acc = acc.wrapping_add(c as u64);
+            }
+        }
+        Ok(acc)
+    });
+}
+
+/// The acceptance side of the checksum law: for every length and both architectures the header carrying the
+/// spec-correct checksum verifies (and loads, where the length is a multiple of 8 >= 16), the one carrying
+/// checksum + 1 does not.  Headers live in a sparsely backed 4 GiB arena, flush right, so every declared
+/// region physically exists.
+fn verify_sweep(ctx: &mut Ctx) {
+    let full = !(ctx.quick() && ctx.dev_profile());
+    let arena = Arena::new_sparse((1usize << 32) / arena::PAGE + 2);
+    ctx.bound("verify_law", if full { "all 2^32 lengths x {I386, MIPS32}: verify_checksum() is true for the spec-correct checksum and false for checksum+1; load() of that header (flush right in a sparse 4 GiB arena) succeeds iff length >= 16 and length % 8 == 0" } else { "the same on the lattice h<<16|l (quick, dev profile)" });
+    let base = arena.end() as usize;
+    sweep_u32(ctx, "verify_checksum / load law", "c10/verify-law", full, 6, |len| {
+        let mut acc = 0u64;
+        for arch in [0u32, 4] {
+            let correct = 0u32.wrapping_sub(SPEC_MAGIC).wrapping_sub(arch).wrapping_sub(len);
+            let good: Multiboot2BasicHeader = unsafe { std::mem::transmute::<[u32; 4], Multiboot2BasicHeader>([SPEC_MAGIC, arch, len, correct]) };
+            let bad: Multiboot2BasicHeader = unsafe { std::mem::transmute::<[u32; 4], Multiboot2BasicHeader>([SPEC_MAGIC, arch, len, correct.wrapping_add(1)]) };
+            if !good.verify_checksum() {
+                return Err(format!("verify_checksum() refuses the valid checksum {:#x} (arch {}, length {:#x})", correct, arch, len));
+            }
+            if bad.verify_checksum() {
+                return Err(format!("verify_checksum() accepts the invalid checksum {:#x} (arch {}, length {:#x})", correct.wrapping_add(1), arch, len));
+            }
+            if len % 8 == 0 && (len as usize) < (1usize << 32) - 4096 {
+                // load the header in place
+                let span = (len as usize).max(16);
+                let p = (base - span) as *mut u32;
+                unsafe {
+                    p.write(SPEC_MAGIC);
+                    p.add(1).write(arch);
+                    p.add(2).write(len);
+                    p.add(3).write(correct);
+                }
+                let r = unsafe { Multiboot2Header::load(p as *const Multiboot2BasicHeader) };
+                let want_ok = len >= 16;
+                match (&r, want_ok) {
+                    (Ok(_), true) => acc += 1,
+                    (Err(LoadError::Memory(MemoryError::ShorterThanHeader)), false) => {}
+                    _ => return Err(format!("load of the valid header (arch {}, length {:#x}, checksum {:#x}) gives {:?}", arch, len, correct, r.map(|_| ()))),
+                }
             }
         }
         Ok(acc)
